@@ -552,6 +552,811 @@ theorem trieOf_alSet (st : Idx Sel) (s s' : String) (t : List Cidr) (o : List Ev
   simp only [alGet_alSet]
   by_cases h : s' = s <;> simp [h]
 
+theorem einv_congr {st st' : Idx Sel} (hE : EInv st) (hsup : st'.suppress = st.suppress)
+    (hout : st'.out = st.out) (htr : ∀ s, trieOf st' s = trieOf st s)
+    (hpos : ∀ s m, 0 < refCount st' s m ↔ 0 < refCount st s m) : EInv st' := by
+  obtain ⟨D, hD, hmem⟩ := hE.down
+  refine ⟨⟨D, by rw [hout]; exact hD, fun s m => ?_⟩, ?_, ?_, ?_⟩
+  · rw [hmem, visible_congr hsup (hpos s)]
+  · intro hs s c
+    rw [htr, hpos]
+    exact hE.trie (hsup ▸ hs) s c
+  · intro s; rw [htr]; exact hE.trieNodup s
+  · intro s c h; exact hE.canon s c ((hpos _ _).1 h)
+
+/-- a plain (unsuppressed) add of a member whose refcount was 0 -/
+theorem einv_incr_plain {st st' : Idx Sel} {s : String} {m : Member} (hE : EInv st)
+    (hm : ∀ c, m = .cidr c → c.canon) (hsup : st'.suppress = st.suppress)
+    (hpos : ∀ s' m', 0 < refCount st' s' m' ↔ (0 < refCount st s' m' ∨ (s' = s ∧ m' = m)))
+    (h0 : refCount st s m = 0)
+    (hplain : st.suppress = true → ∀ c, m ≠ .cidr c)
+    (hout : st'.out = st.out ++ [.added s m])
+    (htr : ∀ s, trieOf st' s = trieOf st s) : EInv st' := by
+  obtain ⟨D, hD, hmem⟩ := hE.down
+  have hnv : (s, m) ∉ D := by
+    rw [hmem]; intro h; have := h.1; omega
+  have hposc : st.suppress = true → ∀ s' c, 0 < refCount st' s' (.cidr c) ↔ 0 < refCount st s' (.cidr c) := by
+    intro hs s' c
+    rw [hpos]
+    constructor
+    · rintro (h | ⟨_, h⟩)
+      · exact h
+      · exact absurd h.symm (hplain hs c)
+    · exact Or.inl
+  refine ⟨⟨(s, m) :: D, ?_, fun s' m' => ?_⟩, ?_, ?_, ?_⟩
+  · rw [hout]
+    apply replay_append hD
+    simp [replayFrom, applyEvent, hnv]
+  · simp only [List.mem_cons, Prod.mk.injEq, hmem]
+    unfold visible
+    rw [hpos, hsup]
+    constructor
+    · rintro (⟨rfl, rfl⟩ | ⟨h1, h2⟩)
+      · refine ⟨Or.inr ⟨rfl, rfl⟩, fun hs c hc => ?_⟩
+        exact absurd hc (hplain hs c)
+      · refine ⟨Or.inl h1, fun hs c hc c' hc' => h2 hs c hc c' ((hposc hs _ _).1 hc')⟩
+    · rintro ⟨h1 | h1, h2⟩
+      · right
+        exact ⟨h1, fun hs c hc c' hc' => h2 hs c hc c' ((hposc hs _ _).2 hc')⟩
+      · left; exact h1
+  · intro hs s' c
+    have hs' : st.suppress = true := hsup ▸ hs
+    rw [htr, hposc hs']
+    exact hE.trie hs' s' c
+  · intro s'; rw [htr]; exact hE.trieNodup s'
+  · intro s' c h
+    rcases (hpos _ _).1 h with h | ⟨_, h⟩
+    · exact hE.canon s' c h
+    · exact hm c h.symm
+
+theorem trieOf_congr {st st' : Idx Sel} (h : st'.tries = st.tries) (s : String) :
+    trieOf st' s = trieOf st s := by
+  unfold trieOf; rw [h]
+
+theorem einv_incr {st st' : Idx Sel} {s : String} {m : Member} (hE : EInv st)
+    (hm : ∀ c, m = .cidr c → c.canon) (hsup : st'.suppress = st.suppress)
+    (hpos : ∀ s' m', 0 < refCount st' s' m' ↔ (0 < refCount st s' m' ∨ (s' = s ∧ m' = m)))
+    (hout : st'.out = (if refCount st s m = 0 then onMemberAdded s m st else st).out)
+    (htr : st'.tries = (if refCount st s m = 0 then onMemberAdded s m st else st).tries) : EInv st' := by
+  by_cases h0 : refCount st s m = 0
+  · simp only [h0, if_true] at hout htr
+    by_cases hs : st.suppress = true
+    · cases m with
+      | ipp v a po pr =>
+        apply einv_incr_plain hE hm hsup hpos h0 (fun _ c h => by cases h)
+        · rw [hout]; rfl
+        · intro s'; exact trieOf_congr htr s'
+      | cidr c =>
+        rw [onMemberAdded_sup hs] at hout htr
+        simp only at hout htr
+        have hcan : c.canon := hm c rfl
+        have hct : c ∉ trieOf st s := by
+          rw [hE.trie hs]; omega
+        have hset : setAdd c (trieOf st s) = c :: trieOf st s := by simp [setAdd, hct]
+        rw [hset] at hout htr
+        have htrie' : ∀ s', trieOf st' s' = if s' = s then c :: trieOf st s else trieOf st s' := by
+          intro s'
+          show (alGet s' st'.tries).getD [] = _
+          rw [htr, alGet_alSet]
+          by_cases h : s' = s
+          · simp [h]
+          · simp [h, trieOf]
+        have hposc : ∀ s' x, 0 < refCount st' s' (.cidr x) ↔ (0 < refCount st s' (.cidr x) ∨ (s' = s ∧ x = c)) := by
+          intro s' x; rw [hpos]; simp
+        have hT' : ∀ x, x ∈ trieOf st' s ↔ 0 < refCount st' s (.cidr x) := by
+          intro x
+          rw [htrie', if_pos rfl, hposc, List.mem_cons, hE.trie hs]
+          constructor
+          · rintro (h | h); exact Or.inr ⟨rfl, h⟩; exact Or.inl h
+          · rintro (h | ⟨_, h⟩); exact Or.inr h; exact Or.inl h
+        have hs' : st'.suppress = true := hsup.trans hs
+        have hct' : ∀ d ∈ trieOf st s, d.canon := fun d hd => hE.canon s d ((hE.trie hs s d).1 hd)
+        obtain ⟨D, hD, hmem⟩ := hE.down
+        have hDvis : ∀ x, (s, Member.cidr x) ∈ D ↔ vis (trieOf st s) x := by
+          intro x; rw [hmem]; exact visible_cidr_vis hs (hE.trie hs s) x
+        -- membership for sets other than `s` and for non-CIDR members is unaffected
+        have hother : ∀ s' m', (s' ≠ s ∨ ∀ x, m' ≠ .cidr x) → (visible st' s' m' ↔ visible st s' m') := by
+          intro s' m' hne
+          unfold visible
+          rw [hpos, hsup]
+          have hcc : ∀ c', 0 < refCount st' s' (.cidr c') → s' ≠ s → 0 < refCount st s' (.cidr c') := by
+            intro c' h hn
+            rcases (hposc _ _).1 h with h | ⟨h, _⟩
+            · exact h
+            · exact absurd h hn
+          constructor
+          · rintro ⟨h1 | ⟨h1, h1'⟩, h2⟩
+            · refine ⟨h1, fun hs c hc c' hc' => h2 hs c hc c' ((hposc _ _).2 (Or.inl hc'))⟩
+            · rcases hne with hne | hne
+              · exact absurd h1 hne
+              · exact absurd h1' (hne c)
+          · rintro ⟨h1, h2⟩
+            refine ⟨Or.inl h1, fun hs c hc c' hc' => ?_⟩
+            rcases hne with hne | hne
+            · exact h2 hs c hc c' (hcc c' hc' hne)
+            · exact absurd hc (hne c)
+        have hrest : (∃ D', replay st'.out = some D' ∧ ∀ s' m', (s', m') ∈ D' ↔ visible st' s' m') := by
+          by_cases hcov : covers (trieOf st s) c = true
+          · refine ⟨D, ?_, fun s' m' => ?_⟩
+            · rw [hout]; simp [hcov, hD]
+            · by_cases hne : s' ≠ s ∨ ∀ x, m' ≠ .cidr x
+              · rw [hother s' m' hne, hmem]
+              · have : s' = s ∧ ∃ x, m' = .cidr x := by
+                  constructor
+                  · exact Classical.not_not.1 (fun h => hne (Or.inl h))
+                  · exact Classical.not_forall_not.1 (fun h => hne (Or.inr h))
+                obtain ⟨rfl, x, rfl⟩ := this
+                rw [visible_cidr_vis hs' hT', htrie', if_pos rfl, hDvis]
+                exact (supAdd_covered hct hcov x).symm
+          · have hcov' : covers (trieOf st s) c = false := by simpa using hcov
+            obtain ⟨hA, hB⟩ := supAdd_uncovered hct' hcan hct hcov'
+            have hnv : (s, Member.cidr c) ∉ D := by
+              rw [hmem]; intro h; have := h.1; omega
+            have hxs : ((closestDesc (c :: trieOf st s) c).map Member.cidr).Nodup := by
+              exact List.Pairwise.map Member.cidr (fun a b h he => h (by cases he; rfl))
+                (closestDesc_nodup (List.nodup_cons.2 ⟨hct, hE.trieNodup s⟩) c)
+            obtain ⟨D', hD', hmem'⟩ := replayFrom_removes s ((closestDesc (c :: trieOf st s) c).map Member.cidr)
+              ((s, Member.cidr c) :: D) hxs (by
+                intro x hx
+                obtain ⟨y, hy, rfl⟩ := List.mem_map.1 hx
+                exact List.mem_cons_of_mem _ ((hDvis y).2 (hA y hy)))
+            refine ⟨D', ?_, fun s' m' => ?_⟩
+            · rw [hout]
+              apply replay_append hD
+              simp only [hcov, Bool.false_eq_true, if_false, replayFrom, applyEvent, hnv]
+              rw [← hD', List.map_map]
+              rfl
+            · rw [hmem']
+              by_cases hne : s' ≠ s ∨ ∀ x, m' ≠ .cidr x
+              · rw [hother s' m' hne, ← hmem]
+                constructor
+                · rintro ⟨h1, _⟩
+                  rcases List.mem_cons.1 h1 with h1 | h1
+                  · cases h1
+                    rcases hne with hne | hne
+                    · exact absurd rfl hne
+                    · exact absurd rfl (hne c)
+                  · exact h1
+                · intro h1
+                  refine ⟨List.mem_cons_of_mem _ h1, ?_⟩
+                  rintro ⟨x, hx, he⟩
+                  obtain ⟨y, _, rfl⟩ := List.mem_map.1 hx
+                  cases he
+                  rcases hne with hne | hne
+                  · exact absurd rfl hne
+                  · exact absurd rfl (hne y)
+              · have : s' = s ∧ ∃ x, m' = .cidr x := by
+                  constructor
+                  · exact Classical.not_not.1 (fun h => hne (Or.inl h))
+                  · exact Classical.not_forall_not.1 (fun h => hne (Or.inr h))
+                obtain ⟨rfl, x, rfl⟩ := this
+                rw [visible_cidr_vis hs' hT', htrie', if_pos rfl, hB x]
+                constructor
+                · rintro ⟨h1, h2⟩
+                  refine ⟨?_, fun hx => h2 ⟨_, List.mem_map.2 ⟨x, hx, rfl⟩, rfl⟩⟩
+                  rcases List.mem_cons.1 h1 with h1 | h1
+                  · left; cases h1; rfl
+                  · right; exact (hDvis x).1 h1
+                · rintro ⟨h1, h2⟩
+                  refine ⟨?_, ?_⟩
+                  · rcases h1 with rfl | h1
+                    · exact List.mem_cons_self ..
+                    · exact List.mem_cons_of_mem _ ((hDvis x).2 h1)
+                  · rintro ⟨y, hy, he⟩
+                    obtain ⟨z, hz, rfl⟩ := List.mem_map.1 hy
+                    cases he
+                    exact h2 hz
+        refine ⟨hrest, ?_, ?_, ?_⟩
+        · intro _ s' x
+          by_cases h : s' = s
+          · subst h; exact hT' x
+          · rw [htrie', if_neg h, hposc, hE.trie hs]
+            constructor
+            · exact Or.inl
+            · rintro (h' | ⟨h', _⟩); exact h'; exact absurd h' h
+        · intro s'
+          rw [htrie']
+          by_cases h : s' = s
+          · rw [if_pos h]; exact List.nodup_cons.2 ⟨hct, hE.trieNodup s⟩
+          · rw [if_neg h]; exact hE.trieNodup s'
+        · intro s' x h
+          rcases (hposc _ _).1 h with h | ⟨_, h⟩
+          · exact hE.canon s' x h
+          · subst h; exact hcan
+    · have hs' : st.suppress = false := by simpa using hs
+      rw [onMemberAdded_noop hs'] at hout htr
+      apply einv_incr_plain hE hm hsup hpos h0 (fun h => by rw [hs'] at h; cases h)
+      · rw [hout]; rfl
+      · intro s'; exact trieOf_congr htr s'
+  · simp only [h0, if_false] at hout htr
+    apply einv_congr hE hsup hout (trieOf_congr htr)
+    intro s' m'
+    rw [hpos]
+    constructor
+    · rintro (h | ⟨rfl, rfl⟩)
+      · exact h
+      · omega
+    · exact Or.inl
+
+/-- a plain (unsuppressed) removal of a member whose refcount was positive -/
+theorem einv_decr_plain {st st' : Idx Sel} {s : String} {m : Member} (hE : EInv st)
+    (hsup : st'.suppress = st.suppress)
+    (hpos : ∀ s' m', 0 < refCount st' s' m' ↔ (0 < refCount st s' m' ∧ ¬ (s' = s ∧ m' = m)))
+    (h0 : 0 < refCount st s m)
+    (hplain : st.suppress = true → ∀ c, m ≠ .cidr c)
+    (hout : st'.out = st.out ++ [.removed s m])
+    (htr : ∀ s, trieOf st' s = trieOf st s) : EInv st' := by
+  obtain ⟨D, hD, hmem⟩ := hE.down
+  have hv : (s, m) ∈ D := by
+    rw [hmem]
+    refine ⟨h0, fun hs c hc => absurd hc (hplain hs c)⟩
+  have hposc : st.suppress = true → ∀ s' c, 0 < refCount st' s' (.cidr c) ↔ 0 < refCount st s' (.cidr c) := by
+    intro hs s' c
+    rw [hpos]
+    constructor
+    · exact fun h => h.1
+    · exact fun h => ⟨h, fun h' => hplain hs c h'.2.symm⟩
+  refine ⟨⟨D.filter (fun p => p ≠ (s, m)), ?_, fun s' m' => ?_⟩, ?_, ?_, ?_⟩
+  · rw [hout]
+    apply replay_append hD
+    simp [replayFrom, applyEvent, hv]
+  · simp only [List.mem_filter, decide_eq_true_eq, ne_eq, Prod.mk.injEq, hmem]
+    unfold visible
+    rw [hpos, hsup]
+    constructor
+    · rintro ⟨⟨h1, h2⟩, h3⟩
+      exact ⟨⟨h1, h3⟩, fun hs c hc c' hc' => h2 hs c hc c' ((hposc hs _ _).1 hc')⟩
+    · rintro ⟨⟨h1, h3⟩, h2⟩
+      exact ⟨⟨h1, fun hs c hc c' hc' => h2 hs c hc c' ((hposc hs _ _).2 hc')⟩, h3⟩
+  · intro hs s' c
+    have hs' : st.suppress = true := hsup ▸ hs
+    rw [htr, hposc hs']
+    exact hE.trie hs' s' c
+  · intro s'; rw [htr]; exact hE.trieNodup s'
+  · intro s' c h
+    exact hE.canon s' c ((hpos _ _).1 h).1
+
+/-- `Z` = "this decrement takes the refcount to zero" (or a forced removal). -/
+theorem einv_decr {st st' : Idx Sel} {s : String} {m : Member} (Z : Prop) [Decidable Z] (hE : EInv st)
+    (hsup : st'.suppress = st.suppress) (h1 : 0 < refCount st s m)
+    (hpos : ∀ s' m', 0 < refCount st' s' m' ↔ (0 < refCount st s' m' ∧ ¬ (s' = s ∧ m' = m ∧ Z)))
+    (hout : st'.out = (if Z then onMemberRemoved s m st else st).out)
+    (htr : st'.tries = (if Z then onMemberRemoved s m st else st).tries) : EInv st' := by
+  by_cases hZ : Z
+  · simp only [hZ, if_true] at hout htr
+    have hpos' : ∀ s' m', 0 < refCount st' s' m' ↔ (0 < refCount st s' m' ∧ ¬ (s' = s ∧ m' = m)) := by
+      intro s' m'; rw [hpos]; simp [hZ]
+    by_cases hs : st.suppress = true
+    · cases m with
+      | ipp v a po pr =>
+        apply einv_decr_plain hE hsup hpos' h1 (fun _ c h => by cases h)
+        · rw [hout]; rfl
+        · intro s'; exact trieOf_congr htr s'
+      | cidr c =>
+        rw [onMemberRemoved_sup hs] at hout htr
+        simp only at hout htr
+        have hct : c ∈ trieOf st s := (hE.trie hs s c).2 h1
+        have htrie' : ∀ s', trieOf st' s' =
+            if s' = s then (trieOf st s).filter (fun d => d ≠ c) else trieOf st s' := by
+          intro s'
+          show (alGet s' st'.tries).getD [] = _
+          rw [htr, alGet_alSet]
+          by_cases h : s' = s
+          · simp [h]
+          · simp [h, trieOf]
+        have hposc : ∀ s' x, 0 < refCount st' s' (.cidr x) ↔
+            (0 < refCount st s' (.cidr x) ∧ ¬ (s' = s ∧ x = c)) := by
+          intro s' x; rw [hpos']; simp
+        have hT' : ∀ x, x ∈ trieOf st' s ↔ 0 < refCount st' s (.cidr x) := by
+          intro x
+          rw [htrie', if_pos rfl, hposc, mem_filter_ne, hE.trie hs]
+          simp
+        have hs' : st'.suppress = true := hsup.trans hs
+        have hct' : ∀ d ∈ trieOf st s, d.canon := fun d hd => hE.canon s d ((hE.trie hs s d).1 hd)
+        obtain ⟨D, hD, hmem⟩ := hE.down
+        have hDvis : ∀ x, (s, Member.cidr x) ∈ D ↔ vis (trieOf st s) x := by
+          intro x; rw [hmem]; exact visible_cidr_vis hs (hE.trie hs s) x
+        have hother : ∀ s' m', (s' ≠ s ∨ ∀ x, m' ≠ .cidr x) → (visible st' s' m' ↔ visible st s' m') := by
+          intro s' m' hne
+          unfold visible
+          rw [hpos', hsup]
+          constructor
+          · rintro ⟨⟨h1, _⟩, h2⟩
+            refine ⟨h1, fun hs c0 hc c' hc' => ?_⟩
+            rcases hne with hne | hne
+            · exact h2 hs c0 hc c' ((hposc _ _).2 ⟨hc', fun h => hne h.1⟩)
+            · exact absurd hc (hne c0)
+          · rintro ⟨h1, h2⟩
+            refine ⟨⟨h1, ?_⟩, fun hs c0 hc c' hc' => h2 hs c0 hc c' ((hposc _ _).1 hc').1⟩
+            rintro ⟨h3, h4⟩
+            rcases hne with hne | hne
+            · exact hne h3
+            · exact hne c h4
+        have hsplit : ∀ s' m', ¬ (s' ≠ s ∨ ∀ x, m' ≠ Member.cidr x) → s' = s ∧ ∃ x, m' = .cidr x := by
+          intro s' m' hne
+          constructor
+          · exact Classical.not_not.1 (fun h => hne (Or.inl h))
+          · exact Classical.not_forall_not.1 (fun h => hne (Or.inr h))
+        have hrest : (∃ D', replay st'.out = some D' ∧ ∀ s' m', (s', m') ∈ D' ↔ visible st' s' m') := by
+          by_cases hcov : covers ((trieOf st s).filter (fun d => d ≠ c)) c = true
+          · refine ⟨D, ?_, fun s' m' => ?_⟩
+            · rw [hout, if_pos hcov, List.append_nil]; exact hD
+            · by_cases hne : s' ≠ s ∨ ∀ x, m' ≠ .cidr x
+              · rw [hother s' m' hne, hmem]
+              · obtain ⟨rfl, x, rfl⟩ := hsplit s' m' hne
+                rw [visible_cidr_vis hs' hT', htrie', if_pos rfl, hDvis, supRemove_covered hcov x]
+                constructor
+                · intro h
+                  refine ⟨h, ?_⟩
+                  rintro rfl
+                  exact not_vis_of_covered hcov h
+                · exact fun h => h.1
+          · have hcov' : covers ((trieOf st s).filter (fun d => d ≠ c)) c = false := by simpa using hcov
+            obtain ⟨hA, hB, hC⟩ := supRemove_uncovered hct' hct hcov'
+            have hv : (s, Member.cidr c) ∈ D := (hDvis c).2 hA
+            have hxs : ((closestDesc (trieOf st s) c).map Member.cidr).Nodup :=
+              List.Pairwise.map Member.cidr (fun a b h he => h (by cases he; rfl))
+                (closestDesc_nodup (hE.trieNodup s) c)
+            obtain ⟨D', hD', hmem'⟩ := replayFrom_adds s ((closestDesc (trieOf st s) c).map Member.cidr)
+              (D.filter (fun p => p ≠ (s, Member.cidr c))) hxs (by
+                intro x hx
+                obtain ⟨y, hy, rfl⟩ := List.mem_map.1 hx
+                intro h
+                exact (hB y hy).1 ((hDvis y).1 (List.mem_filter.1 h).1))
+            refine ⟨D', ?_, fun s' m' => ?_⟩
+            · rw [hout, if_neg hcov]
+              apply replay_append hD
+              simp only [replayFrom, applyEvent, hv, if_true]
+              rw [← hD', List.map_map]
+              rfl
+            · rw [hmem']
+              by_cases hne : s' ≠ s ∨ ∀ x, m' ≠ .cidr x
+              · rw [hother s' m' hne, ← hmem]
+                constructor
+                · rintro (h1 | ⟨x, hx, he⟩)
+                  · exact (List.mem_filter.1 h1).1
+                  · obtain ⟨y, _, rfl⟩ := List.mem_map.1 hx
+                    cases he
+                    rcases hne with hne | hne
+                    · exact absurd rfl hne
+                    · exact absurd rfl (hne y)
+                · intro h1
+                  left
+                  refine List.mem_filter.2 ⟨h1, ?_⟩
+                  simp only [decide_eq_true_eq]
+                  intro he
+                  cases he
+                  rcases hne with hne | hne
+                  · exact absurd rfl hne
+                  · exact absurd rfl (hne c)
+              · obtain ⟨rfl, x, rfl⟩ := hsplit s' m' hne
+                rw [visible_cidr_vis hs' hT', htrie', if_pos rfl, hC x]
+                constructor
+                · rintro (h1 | ⟨y, hy, he⟩)
+                  · left
+                    obtain ⟨h1, h2⟩ := List.mem_filter.1 h1
+                    refine ⟨(hDvis x).1 h1, ?_⟩
+                    rintro rfl
+                    simp at h2
+                  · right
+                    obtain ⟨z, hz, rfl⟩ := List.mem_map.1 hy
+                    cases he
+                    exact hz
+                · rintro (⟨h1, h2⟩ | h1)
+                  · left
+                    refine List.mem_filter.2 ⟨(hDvis x).2 h1, ?_⟩
+                    simp only [decide_eq_true_eq]
+                    intro he; cases he; exact h2 rfl
+                  · right
+                    exact ⟨_, List.mem_map.2 ⟨x, h1, rfl⟩, rfl⟩
+        refine ⟨hrest, ?_, ?_, ?_⟩
+        · intro _ s' x
+          by_cases h : s' = s
+          · subst h; exact hT' x
+          · rw [htrie', if_neg h, hposc, hE.trie hs]
+            constructor
+            · exact fun h' => ⟨h', fun h'' => h h''.1⟩
+            · exact fun h' => h'.1
+        · intro s'
+          rw [htrie']
+          by_cases h : s' = s
+          · rw [if_pos h]; exact (hE.trieNodup s).filter _
+          · rw [if_neg h]; exact hE.trieNodup s'
+        · intro s' x h
+          exact hE.canon s' x ((hposc _ _).1 h).1
+    · have hs' : st.suppress = false := by simpa using hs
+      rw [onMemberRemoved_noop hs'] at hout htr
+      apply einv_decr_plain hE hsup hpos' h1 (fun h => by rw [hs'] at h; cases h)
+      · rw [hout]; rfl
+      · intro s'; exact trieOf_congr htr s'
+  · simp only [hZ, if_false] at hout htr
+    apply einv_congr hE hsup hout (trieOf_congr htr)
+    intro s' m'
+    rw [hpos]
+    simp [hZ]
+
 end Emission
+
+/-! ### well-formedness carried along every operation -/
+section Good
+variable {Sel : Type} [DecidableEq Sel]
+
+/-- a Go panic or a silent uint64 wrap has happened -/
+def bad (st : Idx Sel) : Bool := st.panicked || st.underflow
+
+def NetsCanon (st : Idx Sel) : Prop := ∀ p ∈ st.eps, ∀ c ∈ p.2.nets, c.canon
+def SetsNodup (st : Idx Sel) : Prop := (st.ipsets.map (·.1)).Nodup
+def RefWF (st : Idx Sel) : Prop :=
+  ∀ p ∈ st.ipsets, (p.2.refc.map (·.1)).Nodup ∧ ∀ q ∈ p.2.refc, 0 < q.2
+
+structure WF (st : Idx Sel) : Prop where
+  e : EInv st
+  nets : NetsCanon st
+  sets : SetsNodup st
+  refwf : RefWF st
+
+/-- Either a flag is up, or all the bookkeeping invariants hold. -/
+def Good (st : Idx Sel) : Prop := bad st = true ∨ WF st
+
+theorem refOf_set (d : IpSetData Sel) (m m' : Member) (n : Nat) :
+    refOf { d with refc := alSet m n d.refc } m' = if m' = m then n else refOf d m' := by
+  unfold refOf; simp only [alGet_alSet]; by_cases h : m' = m <;> simp [h]
+
+theorem refOf_erase (d : IpSetData Sel) (m m' : Member) :
+    refOf { d with refc := alErase m d.refc } m' = if m' = m then 0 else refOf d m' := by
+  unfold refOf; simp only [alGet_alErase]; by_cases h : m' = m <;> simp [h]
+
+theorem refCount_eq {st : Idx Sel} {s : String} {d : IpSetData Sel} (h : alGet s st.ipsets = some d)
+    (m : Member) : refCount st s m = refOf d m := by
+  unfold refCount; rw [h]
+
+theorem refCount_alMod {st st' : Idx Sel} {s : String} {d : IpSetData Sel} {f : IpSetData Sel → IpSetData Sel}
+    (h : alGet s st.ipsets = some d) (h' : st'.ipsets = alMod s f st.ipsets) (s' : String) (m' : Member) :
+    refCount st' s' m' = if s' = s then refOf (f d) m' else refCount st s' m' := by
+  unfold refCount
+  rw [h', alGet_alMod]
+  by_cases hs : s' = s
+  · subst hs; simp [h]
+  · simp [hs]
+
+theorem mem_alMod {κ β : Type} [DecidableEq κ] {k : κ} {f : β → β} {l : List (κ × β)} {p : κ × β}
+    (h : p ∈ alMod k f l) : p ∈ l ∨ ∃ v, (k, v) ∈ l ∧ p = (k, f v) := by
+  unfold alMod at h
+  obtain ⟨q, hq, rfl⟩ := List.mem_map.1 h
+  by_cases hk : q.1 = k
+  · right; refine ⟨q.2, ?_, by simp [hk]⟩
+    rw [← hk]; exact hq
+  · left; simp [hk, hq]
+
+theorem keys_alSet_nodup {κ β : Type} [DecidableEq κ] {k : κ} {v : β} {l : List (κ × β)}
+    (h : (l.map (·.1)).Nodup) : ((alSet k v l).map (·.1)).Nodup := by
+  unfold alSet alErase
+  simp only [List.map_cons, List.nodup_cons]
+  constructor
+  · intro hk
+    obtain ⟨q, hq, hqk⟩ := List.mem_map.1 hk
+    have := (List.mem_filter.1 hq).2
+    simp at this; exact this hqk
+  · exact List.Pairwise.sublist ((List.filter_sublist).map _) h
+
+theorem keys_alErase_nodup {κ β : Type} [DecidableEq κ] {k : κ} {l : List (κ × β)}
+    (h : (l.map (·.1)).Nodup) : ((alErase k l).map (·.1)).Nodup :=
+  List.Pairwise.sublist ((List.filter_sublist).map _) h
+
+theorem onMemberAdded_frame (s : String) (m : Member) (st : Idx Sel) :
+    (onMemberAdded s m st).eps = st.eps ∧ (onMemberAdded s m st).parents = st.parents ∧
+    (onMemberAdded s m st).ipsets = st.ipsets ∧ (onMemberAdded s m st).suppress = st.suppress ∧
+    (onMemberAdded s m st).panicked = st.panicked ∧ (onMemberAdded s m st).underflow = st.underflow := by
+  by_cases hs : st.suppress = true
+  · cases m with
+    | cidr c => rw [onMemberAdded_sup hs]; simp
+    | ipp v a po pr => simp [onMemberAdded, emit]
+  · have hs' : st.suppress = false := by simpa using hs
+    rw [onMemberAdded_noop hs']; simp [emit]
+
+theorem onMemberRemoved_frame (s : String) (m : Member) (st : Idx Sel) :
+    (onMemberRemoved s m st).eps = st.eps ∧ (onMemberRemoved s m st).parents = st.parents ∧
+    (onMemberRemoved s m st).ipsets = st.ipsets ∧ (onMemberRemoved s m st).suppress = st.suppress ∧
+    (onMemberRemoved s m st).panicked = st.panicked ∧ (onMemberRemoved s m st).underflow = st.underflow := by
+  by_cases hs : st.suppress = true
+  · cases m with
+    | cidr c => rw [onMemberRemoved_sup hs]; simp
+    | ipp v a po pr => simp [onMemberRemoved, emit]
+  · have hs' : st.suppress = false := by simpa using hs
+    rw [onMemberRemoved_noop hs']; simp [emit]
+
+/-- what `incref`/`decref`/`forceRemove` leave alone -/
+structure Frame (st st' : Idx Sel) : Prop where
+  eps : st'.eps = st.eps
+  parents : st'.parents = st.parents
+  suppress : st'.suppress = st.suppress
+  keys : st'.ipsets.map (·.1) = st.ipsets.map (·.1)
+  badMono : bad st = true → bad st' = true
+
+theorem Frame.refl (st : Idx Sel) : Frame st st := ⟨rfl, rfl, rfl, rfl, id⟩
+
+theorem Frame.trans {a b c : Idx Sel} (h1 : Frame a b) (h2 : Frame b c) : Frame a c :=
+  ⟨h2.eps.trans h1.eps, h2.parents.trans h1.parents, h2.suppress.trans h1.suppress,
+   h2.keys.trans h1.keys, fun h => h2.badMono (h1.badMono h)⟩
+
+theorem refwf_alMod {st st' : Idx Sel} {s : String} {f : IpSetData Sel → IpSetData Sel}
+    (h : RefWF st) (h' : st'.ipsets = alMod s f st.ipsets)
+    (hf : ∀ d, ((d.refc.map (·.1)).Nodup ∧ ∀ q ∈ d.refc, 0 < q.2) →
+      (((f d).refc.map (·.1)).Nodup ∧ ∀ q ∈ (f d).refc, 0 < q.2)) : RefWF st' := by
+  intro p hp
+  rw [h'] at hp
+  rcases mem_alMod hp with hp | ⟨v, hv, rfl⟩
+  · exact h p hp
+  · exact hf v (h _ hv)
+
+theorem incref_frame (s : String) (m : Member) (st : Idx Sel) : Frame st (incref s m st) := by
+  unfold incref
+  cases h : alGet s st.ipsets with
+  | none => exact ⟨rfl, rfl, rfl, rfl, fun hb => by simp [bad] at hb ⊢⟩
+  | some d =>
+    simp only
+    obtain ⟨f1, f2, f3, f4, f5, f6⟩ := onMemberAdded_frame s m st
+    by_cases h0 : refOf d m = 0
+    · simp only [h0, if_true]
+      refine ⟨f1, f2, f4, ?_, ?_⟩
+      · simp only [alMod_keys, f3]
+      · simp only [bad, f5, f6]; exact id
+    · simp only [h0, if_false]
+      exact ⟨rfl, rfl, rfl, by simp only [alMod_keys], id⟩
+
+theorem incref_good {s : String} {m : Member} {st : Idx Sel} (hg : Good st)
+    (hm : ∀ c, m = .cidr c → c.canon) : Good (incref s m st) := by
+  rcases hg with hb | hw
+  · exact Or.inl ((incref_frame s m st).badMono hb)
+  · cases h : alGet s st.ipsets with
+    | none => left; simp [incref, h, bad]
+    | some d =>
+      right
+      have hfr := incref_frame s m st
+      have hips : (incref s m st).ipsets =
+          alMod s (fun d' => { d' with refc := alSet m (refOf d m + 1) d'.refc }) st.ipsets := by
+        unfold incref; simp only [h]
+        by_cases h0 : refOf d m = 0
+        · simp only [h0, if_true, (onMemberAdded_frame s m st).2.2.1]
+        · simp only [h0, if_false]
+      have hrc : ∀ s' m', refCount (incref s m st) s' m' =
+          if s' = s then (if m' = m then refOf d m + 1 else refOf d m') else refCount st s' m' := by
+        intro s' m'
+        rw [refCount_alMod h hips, refOf_set]
+      refine ⟨?_, ?_, ?_, ?_⟩
+      · apply einv_incr (s := s) (m := m) hw.e hm hfr.suppress
+        · intro s' m'
+          rw [hrc]
+          by_cases hs : s' = s
+          · subst hs
+            by_cases hm' : m' = m
+            · subst hm'; simp
+            · simp [hm', refCount_eq h]
+          · simp [hs]
+        · rw [refCount_eq h]; unfold incref; simp only [h]
+          try (by_cases h0 : refOf d m = 0 <;> simp [h0])
+        · rw [refCount_eq h]; unfold incref; simp only [h]
+          try (by_cases h0 : refOf d m = 0 <;> simp [h0])
+      · intro p hp; rw [hfr.eps] at hp; exact hw.nets p hp
+      · unfold SetsNodup; rw [hfr.keys]; exact hw.sets
+      · apply refwf_alMod hw.refwf hips
+        rintro d' ⟨h1, h2⟩
+        refine ⟨keys_alSet_nodup h1, ?_⟩
+        intro q hq
+        rcases List.mem_cons.1 hq with rfl | hq
+        · simp
+        · exact h2 q (List.mem_filter.1 hq).1
+
+theorem decref_frame (s : String) (m : Member) (st : Idx Sel) : Frame st (decref s m st) := by
+  unfold decref
+  cases h : alGet s st.ipsets with
+  | none => exact ⟨rfl, rfl, rfl, rfl, fun hb => by simp [bad] at hb ⊢⟩
+  | some d =>
+    simp only
+    obtain ⟨f1, f2, f3, f4, f5, f6⟩ := onMemberRemoved_frame s m st
+    by_cases h0 : refOf d m = 0
+    · simp only [h0, if_true]
+      exact ⟨rfl, rfl, rfl, by simp only [alMod_keys], fun hb => by simp [bad] at hb ⊢⟩
+    · simp only [h0, if_false]
+      by_cases h1 : refOf d m - 1 = 0
+      · simp only [h1, if_true]
+        refine ⟨f1, f2, f4, ?_, ?_⟩
+        · simp only [alMod_keys, f3]
+        · simp only [bad, f5, f6]; exact id
+      · simp only [h1, if_false]
+        exact ⟨rfl, rfl, rfl, by simp only [alMod_keys], id⟩
+
+theorem decref_good {s : String} {m : Member} {st : Idx Sel} (hg : Good st) : Good (decref s m st) := by
+  rcases hg with hb | hw
+  · exact Or.inl ((decref_frame s m st).badMono hb)
+  · cases h : alGet s st.ipsets with
+    | none => left; simp [decref, h, bad]
+    | some d =>
+      by_cases h0 : refOf d m = 0
+      · left; simp [decref, h, h0, bad]
+      · right
+        have hfr := decref_frame s m st
+        have hips : (decref s m st).ipsets =
+            alMod s (fun d' => { d' with refc :=
+              (if (refOf d m - 1 = 0) then alErase m d'.refc else alSet m (refOf d m - 1) d'.refc) }) st.ipsets := by
+          unfold decref; simp only [h, h0, if_false]
+          by_cases h1 : refOf d m - 1 = 0
+          · simp only [h1, if_true, (onMemberRemoved_frame s m st).2.2.1]
+          · simp only [h1, if_false]
+        have hrc : ∀ s' m', refCount (decref s m st) s' m' =
+            if s' = s then (if m' = m then refOf d m - 1 else refOf d m') else refCount st s' m' := by
+          intro s' m'
+          rw [refCount_alMod h hips]
+          by_cases h1 : refOf d m - 1 = 0
+          · simp only [h1, if_true, refOf_erase]
+          · simp only [h1, if_false, refOf_set]
+        refine ⟨?_, ?_, ?_, ?_⟩
+        · apply einv_decr (s := s) (m := m) (refOf d m - 1 = 0) hw.e hfr.suppress
+          · rw [refCount_eq h]; omega
+          · intro s' m'
+            rw [hrc]
+            by_cases hs : s' = s
+            · subst hs
+              by_cases hm' : m' = m
+              · subst hm'; simp [refCount_eq h]; omega
+              · simp [hm', refCount_eq h]
+            · simp [hs]
+          · unfold decref; simp only [h, h0, if_false]
+            by_cases h1 : refOf d m - 1 = 0 <;> simp [h1]
+          · unfold decref; simp only [h, h0, if_false]
+            by_cases h1 : refOf d m - 1 = 0 <;> simp [h1]
+        · intro p hp; rw [hfr.eps] at hp; exact hw.nets p hp
+        · unfold SetsNodup; rw [hfr.keys]; exact hw.sets
+        · apply refwf_alMod hw.refwf hips
+          rintro d' ⟨h1, h2⟩
+          by_cases h1' : refOf d m - 1 = 0
+          · simp only [h1', if_true]
+            exact ⟨keys_alErase_nodup h1, fun q hq => h2 q (List.mem_filter.1 hq).1⟩
+          · simp only [h1', if_false]
+            refine ⟨keys_alSet_nodup h1, ?_⟩
+            intro q hq
+            rcases List.mem_cons.1 hq with rfl | hq
+            · simp; omega
+            · exact h2 q (List.mem_filter.1 hq).1
+
+theorem refCount_congr {st st' : Idx Sel} (h : st'.ipsets = st.ipsets) (s : String) (m : Member) :
+    refCount st' s m = refCount st s m := by
+  unfold refCount; rw [h]
+
+/-- changes outside ipsets / tries / out / suppress keep the emission invariant -/
+theorem good_of_same_core {st st' : Idx Sel} (hg : Good st) (hi : st'.ipsets = st.ipsets)
+    (ht : st'.tries = st.tries) (ho : st'.out = st.out) (hs : st'.suppress = st.suppress)
+    (hb : bad st = true → bad st' = true) (hn : WF st → NetsCanon st') : Good st' := by
+  rcases hg with hb' | hw
+  · exact Or.inl (hb hb')
+  · right
+    refine ⟨einv_congr hw.e hs ho (trieOf_congr ht) (fun s m => by rw [refCount_congr hi]), hn hw, ?_, ?_⟩
+    · unfold SetsNodup; rw [hi]; exact hw.sets
+    · unfold RefWF; rw [hi]; exact hw.refwf
+
+theorem good_eps {st : Idx Sel} (l : List (String × EpData)) (hg : Good st)
+    (hl : WF st → ∀ p ∈ l, ∀ c ∈ p.2.nets, c.canon) : Good { st with eps := l } :=
+  good_of_same_core hg rfl rfl rfl rfl id hl
+
+theorem good_panicked (st : Idx Sel) : Good { st with panicked := true } := Or.inl (by simp [bad])
+
+theorem increfAll_good {s : String} {ms : List Member} {st : Idx Sel} (hg : Good st)
+    (hm : ∀ m ∈ ms, ∀ c, m = .cidr c → c.canon) : Good (increfAll s ms st) := by
+  unfold increfAll
+  induction ms generalizing st with
+  | nil => exact hg
+  | cons m ms ih =>
+    rw [List.foldl_cons]
+    exact ih (incref_good hg (hm m (List.mem_cons_self ..))) (fun m' h => hm m' (List.mem_cons_of_mem _ h))
+
+theorem increfAll_frame (s : String) (ms : List Member) (st : Idx Sel) : Frame st (increfAll s ms st) := by
+  unfold increfAll
+  induction ms generalizing st with
+  | nil => exact Frame.refl st
+  | cons m ms ih => rw [List.foldl_cons]; exact (incref_frame s m st).trans (ih _)
+
+theorem decrefAll_good {s : String} {ms : List Member} {st : Idx Sel} (hg : Good st) :
+    Good (decrefAll s ms st) := by
+  unfold decrefAll
+  induction ms generalizing st with
+  | nil => exact hg
+  | cons m ms ih => rw [List.foldl_cons]; exact ih (decref_good hg)
+
+theorem decrefAll_frame (s : String) (ms : List Member) (st : Idx Sel) : Frame st (decrefAll s ms st) := by
+  unfold decrefAll
+  induction ms generalizing st with
+  | nil => exact Frame.refl st
+  | cons m ms ih => rw [List.foldl_cons]; exact (decref_frame s m st).trans (ih _)
+
+theorem decrefOld_good {old : List (String × List Member)} {st : Idx Sel} (hg : Good st) :
+    Good (decrefOld old st) := by
+  unfold decrefOld
+  induction old generalizing st with
+  | nil => exact hg
+  | cons p old ih => rw [List.foldl_cons]; exact ih (decrefAll_good hg)
+
+theorem decrefOld_frame (old : List (String × List Member)) (st : Idx Sel) : Frame st (decrefOld old st) := by
+  unfold decrefOld
+  induction old generalizing st with
+  | nil => exact Frame.refl st
+  | cons p old ih => rw [List.foldl_cons]; exact (decrefAll_frame _ _ st).trans (ih _)
+
+theorem mkIPPortProto_canon (v : Bool) (a po pr : Nat) (c : Cidr) (h : mkIPPortProto v a po pr = .cidr c) :
+    c.canon := by
+  unfold mkIPPortProto at h
+  split at h
+  · cases h; simp [Cidr.canon, Nat.mod_one]
+  · cases h
+
+theorem contrib_canon {e : EpData} {d : IpSetData Sel} (he : ∀ c ∈ e.nets, c.canon) :
+    ∀ m ∈ contrib e d, ∀ c, m = .cidr c → c.canon := by
+  intro m hm c hc
+  unfold contrib at hm
+  split at hm
+  · simp only [List.mem_flatMap, List.mem_map] at hm
+    obtain ⟨pp, _, n, _, hmk⟩ := hm
+    rw [← hmk] at hc
+    exact mkIPPortProto_canon _ _ _ _ c hc
+  · obtain ⟨n, hn, hmn⟩ := List.mem_map.1 hm
+    rw [← hmn] at hc
+    injection hc with h
+    subst h
+    exact he _ hn
+
+variable (matchSel : Sel → Labels → Bool)
+
+theorem scanOne_good {s : String} {p : Idx Sel × EpData} (hg : Good p.1) (he : ∀ c ∈ p.2.nets, c.canon) :
+    Good (scanOne matchSel s p).1 ∧ (scanOne matchSel s p).2.nets = p.2.nets := by
+  unfold scanOne
+  cases alGet s p.1.ipsets with
+  | none => exact ⟨hg, rfl⟩
+  | some d =>
+    simp only
+    split
+    · exact ⟨increfAll_good hg (contrib_canon (by exact he)), rfl⟩
+    · exact ⟨hg, rfl⟩
+
+theorem scanOne_frame (s : String) (p : Idx Sel × EpData) : Frame p.1 (scanOne matchSel s p).1 := by
+  unfold scanOne
+  cases alGet s p.1.ipsets with
+  | none => exact Frame.refl _
+  | some d =>
+    simp only
+    split
+    · exact increfAll_frame _ _ _
+    · exact Frame.refl _
+
+theorem scanFold_good (ks : List String) (p : Idx Sel × EpData) (hg : Good p.1) (he : ∀ c ∈ p.2.nets, c.canon) :
+    Good (ks.foldl (fun p s => scanOne matchSel s p) p).1 ∧
+    (ks.foldl (fun p s => scanOne matchSel s p) p).2.nets = p.2.nets ∧
+    Frame p.1 (ks.foldl (fun p s => scanOne matchSel s p) p).1 := by
+  induction ks generalizing p with
+  | nil => exact ⟨hg, rfl, Frame.refl _⟩
+  | cons k ks ih =>
+    rw [List.foldl_cons]
+    obtain ⟨h1, h2⟩ := scanOne_good matchSel (s := k) hg he
+    obtain ⟨i1, i2, i3⟩ := ih (scanOne matchSel k p) h1 (by rw [h2]; exact he)
+    exact ⟨i1, i2.trans h2, (scanOne_frame matchSel k p).trans i3⟩
+
+theorem scanEp_good {e : EpData} {old : List (String × List Member)} {st : Idx Sel} (hg : Good st)
+    (he : ∀ c ∈ e.nets, c.canon) :
+    Good (scanEp matchSel e old st).1 ∧ (scanEp matchSel e old st).2.nets = e.nets ∧
+    Frame st (scanEp matchSel e old st).1 := by
+  unfold scanEp
+  obtain ⟨h1, h2, h3⟩ := scanFold_good matchSel (st.ipsets.map (·.1)) (st, { e with cached := [] }) hg he
+  exact ⟨decrefOld_good h1, h2, h3.trans (decrefOld_frame _ _)⟩
+
+theorem scanEp_frame (e : EpData) (old : List (String × List Member)) (st : Idx Sel) :
+    Frame st (scanEp matchSel e old st).1 := by
+  unfold scanEp
+  have : ∀ (ks : List String) (p : Idx Sel × EpData),
+      Frame p.1 (ks.foldl (fun p s => scanOne matchSel s p) p).1 := by
+    intro ks
+    induction ks with
+    | nil => intro p; exact Frame.refl _
+    | cons k ks ih => intro p; rw [List.foldl_cons]; exact (scanOne_frame matchSel k p).trans (ih _)
+  exact (this _ (st, { e with cached := [] })).trans (decrefOld_frame _ _)
+
+end Good
 
 end CalicoVerif.C04
